@@ -247,8 +247,12 @@ func (s *Server) ListenAndServeTLS() error {
 // Close returns any error returned from closing the server's underlying
 // listener(s).
 func (s *Server) Close() error {
+	// Checking and closing s.done is one step: two concurrent calls must not
+	// both close the channel.
+	s.locker.Lock()
 	select {
 	case <-s.done:
+		s.locker.Unlock()
 		return ErrServerClosed
 	default:
 		verifGate(nil, "close-after-check")
@@ -256,7 +260,6 @@ func (s *Server) Close() error {
 	}
 
 	var err error
-	s.locker.Lock()
 	for _, l := range s.listeners {
 		if lerr := l.Close(); lerr != nil && err == nil {
 			err = lerr
@@ -279,8 +282,10 @@ func (s *Server) Close() error {
 // Shutdown returns the context's error, otherwise it returns any
 // error returned from closing the Server's underlying Listener(s).
 func (s *Server) Shutdown(ctx context.Context) error {
+	s.locker.Lock()
 	select {
 	case <-s.done:
+		s.locker.Unlock()
 		return ErrServerClosed
 	default:
 		verifGate(nil, "close-after-check")
@@ -288,7 +293,6 @@ func (s *Server) Shutdown(ctx context.Context) error {
 	}
 
 	var err error
-	s.locker.Lock()
 	for _, l := range s.listeners {
 		if lerr := l.Close(); lerr != nil && err == nil {
 			err = lerr
